@@ -28,6 +28,8 @@ def classify_idl(idl):
     d = set(b - a for a, b in zip(idl, idl[1:]))
     if len(d) == 1:
         return 'contig' if d == {1} else 'strided'
+    if idl[-1] - idl[0] == (idl[1] - idl[0]) * (len(idl) - 1):
+        return 'irregular_rangelike'
     return 'irregular'
 
 
@@ -40,7 +42,17 @@ def idl_list(draw, nmin=5, nmax=40, kinds=('contig', 'strided', 'irregular'), ga
     if start is None:
         start = draw(st.one_of(st.integers(0, 3), st.integers(1, 2000), st.integers(9990, 10010)))
     g = gap if gap is not None else draw(st.sampled_from([1, 1, 1, 2, 3, 5]))
-    kind = draw(st.sampled_from(list(kinds)))
+    kind = draw(st.sampled_from(list(kinds) + (['near_range'] if 'irregular' in kinds else [])))
+    if kind == 'near_range':
+        # an irregular list that agrees with a range in first element, first spacing, last element and length:
+        # a strided range with a few interior points moved by one grid slot
+        m = draw(st.integers(3, 5))     # >= 3 so that two neighbours moved towards each other stay distinct
+        n = max(n, 6)
+        out = [start + g * m * k for k in range(n)]
+        moved = draw(st.lists(st.integers(2, n - 2), min_size=1, max_size=3, unique=True))
+        for i in moved:
+            out[i] += g * draw(st.sampled_from([-1, 1]))
+        return out
     if kind == 'contig':
         return [start + g * k for k in range(n)]
     if kind == 'strided':
@@ -190,7 +202,15 @@ def grid_subset(draw, grid, nmin=5):
     """Subset (>= nmin points) of a base grid: full, window, stride or random mask."""
     pts = [grid['start'] + grid['gap'] * k for k in range(grid['len'])]
     L = len(pts)
-    mode = draw(st.sampled_from(['full', 'full', 'window', 'stride', 'mask']))
+    mode = draw(st.sampled_from(['full', 'full', 'window', 'stride', 'mask', 'near_range']))
+    if mode == 'near_range' and L >= 3 * nmin + 1:
+        m = draw(st.integers(3, max(3, (L - 1) // nmin)))
+        idx = list(range(0, L, m))
+        if len(idx) >= max(nmin, 5):
+            moved = draw(st.lists(st.integers(2, len(idx) - 2), min_size=1, max_size=2, unique=True))
+            for i in moved:
+                idx[i] += draw(st.sampled_from([-1, 1]))
+            return [pts[i] for i in idx]
     if mode == 'window' and L > nmin:
         a = draw(st.integers(0, L - nmin))
         b = draw(st.integers(a + nmin, L))
@@ -234,6 +254,9 @@ def related_obs_specs(draw, n_ops, ens_max=2, rep_max=3, lmin=8, lmax=40, with_c
                     for c in specs[0]['chains']:
                         if c['name'] == r:
                             prev = c['idl']
+                if prev is not None and len(prev) > 6 and draw(st.integers(0, 3)) == 0:
+                    k = draw(st.integers(5, len(prev) - 1))
+                    prev = prev[:k] if draw(st.booleans()) else prev[-k:]
                 il = prev if prev is not None else draw(grid_subset(lay[e][r]))
                 chains.append({'name': r, 'idl': list(il), 'form': draw(idl_form()),
                                'data': draw(recipe(len(il), kinds=data_kinds,
